@@ -3072,6 +3072,7 @@ echs_evical_pull(ical_parser_t p[static 1U])
 
 	/* just let _ical_pull do the yakka and we split everything
 	 * into evical vevents and evrruls */
+again:
 	if (UNLIKELY(*p == NULL)) {
 		/* how brave */
 		;
@@ -3080,8 +3081,20 @@ echs_evical_pull(ical_parser_t p[static 1U])
 		;
 	} else if (UNLIKELY(ve == ICAL_EOP)) {
 		/* oh, do the big cleaning up */
-		_ical_fini(*p);
-		free(*p);
+		struct ical_parser_s *_p = *p;
+		const char *const buf = _p->buf;
+		const size_t bsz = _p->bsz;
+		const size_t bix = _p->bix;
+
+		_ical_fini(_p);
+		if (bix < bsz) {
+			/* the buffer goes on, another calendar may follow,
+			 * start afresh on what's left of it */
+			_ical_push(_p, buf, bsz);
+			_p->bix = bix;
+			goto again;
+		}
+		free(_p);
 		*p = NULL;
 	} else {
 		struct ical_parser_s *_p = *p;
